@@ -103,7 +103,7 @@ func init() {
 func init() {
 	properties["C16"] = &Property{
 		Title: "accepted configurations never panic, hang or fail spuriously",
-		Rules: []string{"R-INIT-ORDER", "R-VERIFY-REQ", "R-PANIC", "R-ERRSET", "R-LOOPS-PARSER", "R-MARGIN", "R-HASHRANGE"},
+		Rules: []string{"R-INIT-ORDER", "R-VERIFY-REQ", "R-PANIC", "R-ERRSET", "R-LOOPS-PARSER", "R-MARGIN", "R-HASHRANGE", "R-GSAP-REBUILD"},
 		Decided: "init order (SetDefaults, Verify, error returned, completed value stored); every downstream range requirement is implied by Verify; every reachable explicit panic is discharged; the error set of the parser API; termination templates for all parser-side loops of package lz; 7-byte margin.",
 		NotDecided: "implicit run-time panics (index out of range in the sorters, integer overflow), memory exhaustion, termination of ssort/trSort (package suffix loops are not matched to templates).",
 		Assumptions: []string{"an io.Reader does not return (0, nil) forever", "DivSufSort-internal panics (algorithm invariants) are not decided"},
@@ -117,5 +117,15 @@ func init() {
 		Decided: "the code shape of the LCP-interval stack scan: preconditions established by Segments (0 ≤ minLen ≤ maxLen, len(sa)=len(lcp) ≥ 1, early return only when nothing can be reported), m ∈ [minLen, maxLen] at the callback, left-boundary inheritance across pops, the three-way push / keep / report-then-pop split on the incoming lcp value, the scan position and sentinel, exit only with an empty stack.",
 		NotDecided: "completeness as a fact about texts (that the invariant implies every pair of suffixes lands in exactly one callback) is argued from the invariant, not computed; distinctness of suffixes is inherited from sa being a permutation and the correctness of the LCP table (C09).",
 		Assumptions: []string{"lcp is the LCP table of sa (C09)", "lcp values are non-negative, so the negative sentinel closes every open interval"},
+	}
+}
+
+func init() {
+	properties["C12"] = &Property{
+		Title: "GSAP always takes the longest available match",
+		Rules: []string{"R-STRIDE", "R-GSAP-INSERT", "R-GSAP-BOTH", "R-GSAP-REBUILD", "R-COPY-CLOBBER", "R-RESET-COVER"},
+		Decided: "the scan visits every uncovered position exactly once up to the block end; the current rank is inserted before both neighbour queries and every covered position is inserted; both neighbours are queried, measured against the block-clipped data and the larger length is emitted; the block is scanned only inside the current suffix array or after a rebuild that restores the whole window; the search set's storage is not clobbered when re-grown; Reset/Shrink drop the suffix arrays.",
+		NotDecided: "that the two suffix-array neighbours give the longest previous match (needs a correct suffix array, C09) and the bit tricks inside bitset.memberBefore/memberAfter/insert.",
+		Assumptions: []string{"suffix.Sort yields the suffix array (C09)", "bitset queries return the nearest members (bit-level arithmetic not decided)"},
 	}
 }
